@@ -178,7 +178,9 @@ func (r *Reporter) readSourceLines(filename string, lineNum, before, after int) 
 		end = len(lines) - 1
 	}
 
-	if start >= len(lines) {
+	// The file does not reach the reported line (truncated read, or a //line directive
+	// pointing past its end): context lines alone are no excerpt of this diagnostic
+	if start >= len(lines) || lineNum < 1 || lineNum > len(lines) {
 		return sourceLines{}
 	}
 
